@@ -30,7 +30,7 @@ META = {
                     "hash covers _data and _cache completely, so equal hashes have equal futures"],
 }
 RESULTS = ("auto/ragged", "cross/ragged", "auto/equalK", "cross/equalK", "auto/single", "cross/single", "cross/LminN", "auto/LminN",
-           "auto/singlefres", "cross/singlefres")
+           "auto/singlefres", "cross/singlefres", "cross/delayed")
 
 
 def make_raw(kind, seed=0):
@@ -39,11 +39,17 @@ def make_raw(kind, seed=0):
     mode, shape = kind.split("/")
     N, fs = 64, 4.0
     x, y = ana.data_for(mode if mode == "auto" else "cross", N, "id1", "id2", seed)
+    if shape == "delayed":  # second channel = first delayed by 9 samples: the transfer phase wraps several times
+        N = 256
+        x = records.get("id1", N, seed)
+        y = np.concatenate([np.full(9, x[0]), x[:-9]]) + 0.05 * records.get("id2", N, seed)
     kw = dict(olap=0.5, Jdes=12, Kdes=3, order=0, scheduler="ltf", win="hann", backend="numba")
     if shape == "equalK":
         kw.update(Lmin=16, olap=0.0, band=(0.6, 2.0))
     if shape == "LminN":
         kw.update(Lmin=N)
+    if shape == "delayed":
+        kw.update(Lmin=64, Jdes=40)
     an = ana.make_analyzer(ana.as_input(x, y), fs, **kw)
     if shape == "single":
         r = an.compute_single_bin(0.7, L=16)
@@ -420,6 +426,20 @@ def _two(shard):
             cb = rm.roundtrip(rb, how)
             msg = msg or compare(cb, kb, f"clone of {kb} made after a clone of {ka} was read", hist)
             msg = msg or compare(ca, ka, f"clone of {ka} re-read after a clone of {kb} was read", hist)
+            # DataFrame exports of two different results in one process: each has exactly its own per-bin arrays
+            for obj, kk in ((ca, ka), (cb, kb), (ca, ka)):
+                if msg:
+                    break
+                names, vals = base[kk]
+                nfk = len(raws[kk][0]["f"])
+                want = {a for a in names if a != "f" and isinstance(vals[a], np.ndarray) and vals[a].ndim == 1 and vals[a].shape[0] == nfk}
+                try:
+                    cols = set(obj.to_dataframe().columns)
+                except Exception as e:  # noqa: BLE001
+                    msg = f"to_dataframe() of the clone of {kk} raised {type(e).__name__}: {e}"
+                    break
+                if cols != want:
+                    msg = f"DataFrame of the clone of {kk}: missing {sorted(want - cols)}, extra {sorted(cols - want)}"
             msg = msg or compare(ra, ka, f"original {ka} after its clone was used", hist)
             out["evals"] += 1
             out["nontrivial"] += 1
